@@ -4,6 +4,7 @@ import LdkModel.Props.C02
 #print axioms Ldk.C02.admit_no_loss
 #print axioms Ldk.C02.admit_fee_exact
 #print axioms Ldk.C02.preimage_durable_before_removal_irrevocable
+#print axioms Ldk.C02.blocker_removed_only_when_durable
 #print axioms Ldk.C02.raa_only_after_removal
 #print axioms Ldk.C02.claim_replayed
 #print axioms Ldk.C02.claim_replayed_reachable
